@@ -63,13 +63,15 @@ def correspond(ctx):
         atm = make_atmosphere("simple_atmosphere", theta=a["theta"], tb_down=a["tb_down"], tb_up=a["tb_up"], transmittance=a["trans"])
         npol = int(rng.choice([2, 3]))
         k = int(rng.integers(3, 12))
-        ct = np.sort(rng.uniform(0.0, 1.0, k))[::-1].copy()
-        res = atm.run(37e9, ct, npol)
-        I = rng.uniform(100, 270, k * npol)
-        out = res.tb_up + res.transmittance * I
-        n = len(atm.costheta)
-        line = f"atm_simple {npol} {n} {k} {fs(atm.costheta)} {fs(atm.tbdown)} {fs(atm.tbup)} {fs(atm.trans)} {fs(ct)} {fs(I)}"
-        co.add("atmosphere.simple", line, fs(res.tb_down) + " | " + fs(out), Tol(1e-12), desc=a)
+        # the same atmosphere object serves several stream sets of the same size in turn (a time series of snowpacks)
+        for rep in range(2):
+            ct = np.sort(rng.uniform(0.0, 1.0, k))[::-1].copy()
+            res = atm.run(37e9, ct, npol)
+            I = rng.uniform(100, 270, k * npol)
+            out = res.tb_up + res.transmittance * I
+            n = len(atm.costheta)
+            line = f"atm_simple {npol} {n} {k} {fs(atm.costheta)} {fs(atm.tbdown)} {fs(atm.tbup)} {fs(atm.trans)} {fs(ct)} {fs(I)}"
+            co.add("atmosphere.simple", line, fs(res.tb_down) + " | " + fs(out), Tol(1e-12), desc=dict(a, use=rep))
     # isotropic atmosphere through the real solver: final Tb = tb_up + trans * (surface intensity with tb_down incident)
     for _ in range(ctx.n(8, 60)):
         sc = const_scene(rng, "iba", "exponential", atmosphere=True)
@@ -144,9 +146,50 @@ def check_linear(sc, seed):
     return None
 
 
+def check_angles(sc):
+    """the value at a viewing angle does not depend on its companions or their order: a 4-angle radiometer in a non-monotonic order
+    against one run per angle (same sources)"""
+    th = [30., 0., 53., 12.]
+    tb = run_tb(sc, th)
+    for j, t in enumerate(th):
+        one = run_tb(sc, [t])
+        dev = float(np.abs(np.asarray(tb)[j] - np.asarray(one)[0]).max())
+        if not dev <= 1e-7:
+            return ("angle-order", dev, f"<= 1e-7 K at {t} deg")
+    return None
+
+
+def check_atm_reuse(seed):
+    """one angle-dependent atmosphere object used for a series of snowpacks whose air streams differ: each result must equal the one
+    obtained with a fresh, identical atmosphere object, and tb_up + trans * (surface Tb with tb_down incident) at the stream angles"""
+    from smrt import make_model, make_snowpack, sensor_list
+    from smrt.inputs.make_medium import make_atmosphere
+    rng = np.random.default_rng(seed)
+    a = simple_atm(rng)
+    mk = lambda: make_atmosphere("simple_atmosphere", theta=a["theta"], tb_down=a["tb_down"], tb_up=a["tb_up"], transmittance=a["trans"])
+    shared = mk()
+    m = make_model("iba", "dort", rtsolver_options=dict(n_max_stream=32))
+    sensor = sensor_list.passive(float(rng.choice([18.7e9, 36.5e9])), [20., 35., 50., 65.])
+    worst = 0.0
+    for dens in np.linspace(rng.uniform(200, 300), rng.uniform(320, 420), 5):
+        sp = lambda: make_snowpack([0.3, 2.0], "exponential", density=[float(dens), 350.], corr_length=[1e-4, 2e-4], temperature=[255., 265.],
+                                   ice_permittivity_model=complex(3.18, 1e-3))
+        got = np.asarray(m.run(sensor, shared + sp()).data.values)
+        want = np.asarray(m.run(sensor, mk() + sp()).data.values)
+        worst = max(worst, float(np.abs(got - want).max()))
+    return ("atmosphere-reuse", worst, "<= 1e-9 K") if not worst <= 1e-9 else None
+
+
 def oracle(ctx, hints, effort):
     rng = ctx.np
     findings, evals = {}, 0
+    for j in range(1 if effort == "routine" else 6):
+        evals += 10
+        sd = int(rng.integers(0, 2**31))
+        r = check_atm_reuse(sd)
+        if r:
+            findings.setdefault(r[0], Finding(r[0], "a reused angle-dependent atmosphere object gives a different Tb than a fresh identical one",
+                                              {"kind": "atm-reuse", "seed": sd}, r[1], r[2]))
     n = 4 if effort == "routine" else 40
     for i in range(n):
         em, ms = pC01.PAIRINGS[i % (3 if effort == "routine" else len(pC01.PAIRINGS))]
@@ -163,6 +206,12 @@ def oracle(ctx, hints, effort):
                 continue
             raise
         evals += 3 + len(sc["thickness"]) + 2
+        if r is None and i % 2 == 0:
+            try:
+                evals += 5
+                r = check_angles(sc)
+            except AssertionError:
+                r = None
         if r is not None:
             key = f"{r[0]}:{sc['emmodel']}"
             findings.setdefault(key, Finding(key, f"{r[0]} violated", {"scene": sc, "seed": seed}, r[1], r[2]))
@@ -170,5 +219,8 @@ def oracle(ctx, hints, effort):
 
 
 def replay(inp, rp=None):
-    r = check_linear(inp["scene"], inp["seed"])
+    if inp.get("kind") == "atm-reuse":
+        r = check_atm_reuse(inp["seed"])
+        return Finding("?", r[0], inp, r[1], r[2]) if r else None
+    r = check_linear(inp["scene"], inp["seed"]) or check_angles(inp["scene"])
     return Finding("?", r[0], inp, r[1], r[2]) if r else None
